@@ -1267,6 +1267,12 @@ def try_discharge(fx, f, s, key, tainted_params, table, used):
     res = auto_discharge(fx, f, s, tainted_params)
     if res is None and (s['kind'].startswith('call:') or s['kind'].startswith('panic:')):
         res = discharge_call(fx, f, s, tainted_params)
+    if res is None and key not in table:
+        # an entry may leave the operands open (`*`) where the argument does not depend on how they are written and rests on a
+        # guard, which is mandatory for such an entry and re-checked below
+        wk = site_key(s['fn'], s['kind'], '*')
+        if wk in table and table[wk][0] not in ('', '-'):
+            key = wk
     if res is None and key in table:
         needs, reason = table[key]
         used.add(key)
